@@ -58,6 +58,17 @@ def run(ctx):
             items = [rand_item(allow_hard=True) for _ in range(depth)]
             path = '/'.join(([prefix] if prefix else []) + items)
             cases.append(('bip32 %s %s' % (seed.hex(), path), attempt(lambda: master.subkey_for_path(path)), True))
+        # the prefixes alone: 'm' is the key itself, 'M' its public part (on the master and on a derived key)
+        for base in ([], ['m', "3'", '7']):
+            def bare(prefix_, base_=base):
+                k0 = master.subkey_for_path('/'.join(base_)) if base_ else master
+                return k0.subkey_for_path(prefix_)
+            for prefix_ in ('m', 'M'):
+                pth = '/'.join(base) if base else 'm'
+                if prefix_ == 'm':
+                    cases.append(('bip32 %s %s' % (seed.hex(), pth), attempt(lambda: bare(prefix_)), True))
+                else:
+                    cases.append(('bip32_split %s %s -' % (seed.hex(), pth), attempt(lambda: bare(prefix_)), True))
         # every split point of a path with non-hardened tail
         for _ in range(6 if T else 2):
             p1 = ['m'] + [rand_item(allow_big=False) for _ in range(rng.randint(0, 4))]
